@@ -402,6 +402,11 @@ type qsClause struct {
 	Text   string
 	Prefix string // "", "+", "-"
 	Q      *Q
+	// OutsideModel: the clause is compared with the directly constructed query only.  A phrase
+	// on the keyword field k is one: k is indexed without term vectors, and phrase queries need
+	// positions (documented precondition, the same one query.go's generator respects), so what
+	// such a clause matches is not defined by the document contents alone.
+	OutsideModel bool
 }
 
 // keyword values made of ordinary letters and the characters the query-string syntax reserves
@@ -441,6 +446,7 @@ func genQSClause(t *rapid.T) qsClause {
 	case 3:
 		a, b := w(), w()
 		c.Text, c.Q = scope+"\""+a+" "+b+"\"", &Q{Kind: "matchphrase", Field: qf, Text: a + " " + b}
+		c.OutsideModel = qf == "k"
 	case 4:
 		x := w()
 		f := rapid.IntRange(1, 2).Draw(t, "fuzz")
@@ -515,9 +521,10 @@ func TestC17QueryStringGrammar(t *testing.T) {
 		var parts []string
 		bq := &Q{Kind: "boolean"}
 		prefixes := map[string]bool{}
-		scoped := false
+		scoped, outsideModel := false, false
 		for i := 0; i < n; i++ {
 			cl := genQSClause(t)
+			outsideModel = outsideModel || cl.OutsideModel
 			parts = append(parts, cl.Text)
 			prefixes[cl.Prefix] = true
 			if strings.Contains(cl.Text, ":") {
@@ -563,8 +570,10 @@ func TestC17QueryStringGrammar(t *testing.T) {
 		if strings.Join(got, ",") != strings.Join(want, ",") {
 			t.Fatalf("query string %q (parsed after %q) on %s returned %v, the constructed query %s returns %v (docs %v)", s, polluter, c.Cfg, got, bq, want, c.Model.Docs)
 		}
-		if msg, _, _ := judge(bq, c.Model, got, uint64(len(got))); msg != "" {
-			t.Fatalf("query string %q on %s: %s", s, c.Cfg, msg)
+		if !outsideModel {
+			if msg, _, _ := judge(bq, c.Model, got, uint64(len(got))); msg != "" {
+				t.Fatalf("query string %q on %s: %s", s, c.Cfg, msg)
+			}
 		}
 		nt := n >= 2 && len(prefixes) >= 2 && scoped
 		cl := []string{"O4-query-string-grammar", "engine:" + c.Cfg.Engine}
